@@ -390,14 +390,12 @@ Section Batch.
         end
     end.
 
-  Fixpoint defuzzify_outputs_b (st : bstate) (ovs : list (output_var T)) (done todo : list boutput) : result (list boutput) :=
-    match ovs, todo with
-    | ov :: ovs', bo :: todo' =>
-        do bo' <- output_defuzzify_b (with_outputs_b st (done ++ todo)) ov bo;
-        defuzzify_outputs_b st ovs' (done ++ [bo']) todo'
-    | [], [] => Ok done
-    | _, _ => Err EInternal
-    end.
+  (* for variable in self.output_variables: variable.defuzzify()  (a defuzzifier reads the engine only through the input
+     values, Linear terms; the other output variables' values would matter to Function terms only) *)
+  Definition defuzzify_outputs_b (st : bstate) (ovs : list (output_var T)) (outs : list boutput) : result (list boutput) :=
+    if Nat.eqb (length ovs) (length outs)
+    then mapM_ (fun p => output_defuzzify_b st (fst p) (snd p)) (combine ovs outs)
+    else Err EInternal.
 
   (* ============================================================================ Engine.process on a batch *)
   (* the state in which a batch run starts: the scalar state of e, the input arrays just assigned *)
@@ -415,7 +413,7 @@ Section Batch.
   Definition process_b (st : bstate) : result bstate :=
     let e := bs_e st in
     do ro <- blocks_step_b st (map bo_clear_fuzzy (bs_outputs st)) (e_blocks e) (bs_rules st);
-    do outs <- defuzzify_outputs_b st (e_outputs e) [] (snd ro);
+    do outs <- defuzzify_outputs_b st (e_outputs e) (snd ro);
     Ok {| bs_e := e; bs_inputs := bs_inputs st; bs_outputs := outs; bs_rules := fst ro |}.
 
   (* engine.input_values = values; engine.process() *)
